@@ -156,6 +156,10 @@ func (e *EDNS) ServeDNS(ctx context.Context, ch *middleware.Chain) {
 	if opt.Version() != 0 {
 		ednsErrorBadVersion.Inc()
 		opt.SetVersion(0)
+		// CancelWithRcode answers with the request's own OPT. SetEdns0 may
+		// have put the clamped client-subnet option on it for forwarding;
+		// nothing is forwarded here, and ECS must never be echoed to a client.
+		opt.Option = nil
 
 		ch.CancelWithRcode(dns.RcodeBadVers, do)
 
